@@ -412,14 +412,20 @@ fn run_multi(sc: &Value) {
         for (k, &(fa_addr, _)) in foreign.iter().enumerate() {
             watch::add_arena(&format!("foreign{}", k + 1), fa_addr, 4096);
         }
+        let as_bool = life.get("bool").and_then(|x| x.as_bool()).unwrap_or(false);
         let mut inj = in_lib(InjectorPP::new);
         let mut tramps = Vec::new();
         for (k, (addr, fake)) in funcs.iter().enumerate() {
             let before: BTreeSet<u64> = interpose::OWNED.lock().unwrap().iter().map(|x| x.0).collect();
+            // "bool": every installation of this lifetime forces a boolean (alternating values) instead of redirecting
             let r = catch_unwind(AssertUnwindSafe(|| {
                 in_lib(|| unsafe {
-                    inj.when_called(FuncPtr::new(*addr as *const (), "extern \"C\" fn() -> u32"))
-                        .will_execute_raw(FuncPtr::new(*fake as *const (), "extern \"C\" fn() -> u32"))
+                    if as_bool {
+                        inj.when_called(FuncPtr::new(*addr as *const (), "extern \"C\" fn() -> bool")).will_return_boolean(k % 2 == 0)
+                    } else {
+                        inj.when_called(FuncPtr::new(*addr as *const (), "extern \"C\" fn() -> u32"))
+                            .will_execute_raw(FuncPtr::new(*fake as *const (), "extern \"C\" fn() -> u32"))
+                    }
                 })
             }));
             interpose::set_in_lib(false);
@@ -441,10 +447,16 @@ fn run_multi(sc: &Value) {
             let entry = unsafe { std::slice::from_raw_parts(*addr as *const u8, 16.min((fa.base + fa.len as u64 - addr) as usize)) }.to_vec();
             let trampb = if mapped { unsafe { std::slice::from_raw_parts(tramp as *const u8, 16) }.to_vec() } else { vec![0u8; 16] };
             emit(json!({"ev":"MState","life":li + 1,"idx":k + 1,"func":a8(*addr),"entry":entry,"tramp":a8(tramp),"trampb":trampb,
-                "tramp_mapped":mapped,"fake":a8(*fake),"fake_known":true,"kind":"jump"}));
+                "tramp_mapped":mapped,"fake":a8(*fake),"fake_known":true,"kind": if as_bool { "bool" } else { "jump" },
+                "v": if k % 2 == 0 { 1 } else { 0 },
+                "extra": if as_bool && mapped { follow(tramp, &trampb) } else { Vec::new() }}));
         }
         for (k, (addr, _)) in funcs.iter().enumerate() {
-            emit(json!({"ev":"MCalled","life":li + 1,"idx":k + 1,"phase":"installed","res":call_stub(*addr),"want":FAKE_ID + 10 * k as u32}));
+            if as_bool {
+                emit(json!({"ev":"MCalled","life":li + 1,"idx":k + 1,"phase":"installed","res":call_stub(*addr) & 0xff,"want": if k % 2 == 0 { 1 } else { 0 }}));
+            } else {
+                emit(json!({"ev":"MCalled","life":li + 1,"idx":k + 1,"phase":"installed","res":call_stub(*addr),"want":FAKE_ID + 10 * k as u32}));
+            }
         }
         in_lib(|| drop(inj));
         watch::diff_all("drop-end");
